@@ -103,6 +103,7 @@ type State struct {
 	segStart       string           // cut point where the current segment started: "entry" or "loop k"
 	segHeap        map[string]*Term // heap at the start of the current segment (for pre(...) in rows)
 	birth          map[string]*Term // heap map term (by key) -> allocation watermark when that version came into being (shared by all clones)
+	onceFacts      map[string]bool
 	segLocals      map[string]Val   // values of the unit frame's value-locals (loop phis) at the start of the segment
 	segSpec        *FuncSpec
 	cancelled      bool
@@ -122,6 +123,12 @@ func (st *State) clone() *State {
 		n.globals[k] = v
 	}
 	n.facts = append([]*Term(nil), st.facts...)
+	if st.onceFacts != nil {
+		n.onceFacts = make(map[string]bool, len(st.onceFacts))
+		for k, v := range st.onceFacts {
+			n.onceFacts[k] = v
+		}
+	}
 	n.events = append([]*Event(nil), st.events...)
 	n.path = append([]string(nil), st.path...)
 	n.notes = append([]string(nil), st.notes...)
@@ -149,6 +156,18 @@ func (st *State) clone() *State {
 		n.frames = append(n.frames, &nf)
 	}
 	return n
+}
+
+// seenFact: true if the keyed helper fact was already added on this path (marks it as added otherwise)
+func (st *State) seenFact(k string) bool {
+	if st.onceFacts == nil {
+		st.onceFacts = map[string]bool{}
+	}
+	if st.onceFacts[k] {
+		return true
+	}
+	st.onceFacts[k] = true
+	return false
 }
 
 func (st *State) assume(t *Term) {
